@@ -41,6 +41,7 @@ pub proof fn lemma_decompose(p: int, x: int) -> (r: (int, int))
     lemma_fundamental_div_mod(x, p); lemma_mod_bound(x, p); lemma_div_pos_is_pos(x, p);
     (x / p, x % p)
 }
+#[verifier::spinoff_prover]
 pub proof fn lemma_sbf_step(p: int, q: int, dl: int, t: int)
     requires 1 <= q <= dl <= p, t >= 0
     ensures 0 <= sbf_constrained(p, q, dl, t) <= sbf_constrained(p, q, dl, t + 1) <= sbf_constrained(p, q, dl, t) + 1
@@ -74,6 +75,7 @@ pub open spec fn st_constrained(p: int, q: int, dl: int, d: int) -> int {
         if f > 0 { (p - q) + p * k + (dl - q) + f } else { (dl - q) + p * k }
     }
 }
+#[verifier::spinoff_prover]
 pub proof fn lemma_st(p: int, q: int, dl: int, d: int)
     requires 1 <= q <= dl <= p, d >= 0
     ensures st_constrained(p, q, dl, d) >= 0,
@@ -111,6 +113,7 @@ pub proof fn lemma_st(p: int, q: int, dl: int, d: int)
 
 
 /// the normal form used in the contracts coincides with Shin & Lee's published formula
+#[verifier::spinoff_prover]
 pub proof fn lemma_shin_lee(p: int, q: int, t: int)
     requires 1 <= q <= p, t >= 0
     ensures sbf_periodic(p, q, t) == sbf_shin_lee(p, q, t)
